@@ -63,9 +63,22 @@ def _bclass(a):
     return 'interior'
 
 
+def bystanders(g):
+    """What a cart holds besides the five regions: the label image, the code, the version number."""
+    lab = getattr(g, 'label', None)
+    return {'label': bytes(lab.to_bytes()) if lab is not None else None, 'code': b''.join(g.lua.to_lines()), 'version': g.version}
+
+
 def _new_game(rng):
     regions, mode = carts.random_regions(rng)
-    g = carts.make_game(regions)
+    r = rng.random()
+    if r < 0.25:
+        from pico8.game.game import Game
+        # (a cart made by the library's own constructor has a label of its own)
+        g = Game.make_empty_game()
+        g.write_cart_data(b''.join(regions[n] for n, _ in REGIONS), 0)
+    else:
+        g = carts.make_game(regions, code=b'x=1\n-- code\n', label=carts.random_bytes(rng, 8192) if r < 0.7 else None)
     return g, Shadow(b''.join(regions[n] for n, _ in REGIONS))
 
 
@@ -91,6 +104,8 @@ def do_write(ctx, g, sh, start, data, tag):
     n = len(data)
     case = {'start': start, 'data': bytes(data), 'prior': bytes(sh.mem), 'tag': tag}
     before = carts.game_memory(g)
+    others = bystanders(g)
+    ctx.feature('cart_with_label' if others['label'] is not None else 'cart_without_label')
     ctx.case((start, n, bytes(data), before), nontrivial=(n > 0))
     ctx.feature('start@' + _bclass(start))
     ctx.feature('end@' + _bclass(start + n))
@@ -105,6 +120,12 @@ def do_write(ctx, g, sh, start, data, tag):
     after_regions = carts.game_regions(g)
     after = b''.join(after_regions[x] for x, _ in REGIONS)
     ctx.monitor('writes_observed')
+    now = bystanders(g)
+    ctx.monitor('bystander_comparisons')
+    for k in ('label', 'code', 'version'):
+        if now[k] != others[k]:
+            ctx.violation('writing %d bytes at 0x%x changed the cart\'s %s, which no cart address names' % (n, start, k), case)
+            return False
     if must_reject:
         ctx.monitor('rejections_expected')
         if raised is None:
@@ -339,7 +360,7 @@ def run_shard(spec, ctx):
 
 
 def replay(case, ctx):
-    g = carts.make_game({n: case['prior'][a:b] for n, (a, b) in REGIONS})
+    g = carts.make_game({n: case['prior'][a:b] for n, (a, b) in REGIONS}, code=b'x=1\n', label=bytes(range(256)) * 32)
     do_write(ctx, g, Shadow(case['prior']), case['start'], case['data'], 'replay')
 
 
@@ -355,6 +376,8 @@ def gates(m, tier):
     for k in (1, 2, 3, 4, 5):
         if f.get('regions_spanned_%d' % k, 0) < 3:
             missed.append('no write spanning %d regions' % k)
+    if f.get('cart_with_label', 0) < 500 or f.get('cart_without_label', 0) < 200:
+        missed.append('writes to carts with a label %d, without %d' % (f.get('cart_with_label', 0), f.get('cart_without_label', 0)))
     if mon.get('saved_carts_compared', 0) < 20:
         missed.append('saved carts compared: %d' % mon.get('saved_carts_compared', 0))
     if f.get('section_object_replaced', 0) < 20:
